@@ -256,6 +256,71 @@ Section G.
   Qed.
 
   (* every model built from the empty model carries a workspace satisfying the invariant of the C01-C13 theorems *)
+  (* ---------- the root joint keeps its empty coordinate range ---------- *)
+  Definition RootJ (M : Model) : Prop := jq (getJ M 0) + jdof (getJ M 0) = 0.
+  Lemma add_movable_joint0 (M : Model) parent X j b nm M' id : WF M ->
+    add_movable O M parent X j b nm = (M', ROk id) -> getJ M' 0 = getJ M 0.
+  Proof.
+    intros W. unfold add_movable. destruct (name_taken M nm); [discriminate|].
+    destruct (if is_fixed_id M parent then _ else _) as [mp mpX].
+    intro H. injection H as <- _. unfold getJ. cbn [joints]. apply app_nth1.
+    rewrite (wf_joints M W). exact (wf_pos M W).
+  Qed.
+  Lemma add_emulated_joint0 : forall axes (M : Model) parent X b nm M' id,
+    WF M -> valid_parent M parent -> (N.of_nat (nbodies M + length axes) < fixed_disc)%N ->
+    add_emulated O M parent X axes b nm = (M', ROk id) -> getJ M' 0 = getJ M 0.
+  Proof.
+    induction axes as [|a rest IH]; intros M parent X b nm M' id W Vp Hs H; [discriminate|].
+    destruct rest as [|a2 rest'].
+    - cbn in H. exact (add_movable_joint0 _ _ _ _ _ _ _ _ W H).
+    - cbn [add_emulated] in H.
+      destruct (add_movable O M parent X (classify_axis O a) (null_body O) 0%N) as [M1 r1] eqn:E1.
+      destruct r1 as [id1|]; [|discriminate].
+      destruct (add_movable_WF O _ _ _ _ _ _ _ _ W Vp (classify_not_root O a) E1) as (W1 & Hn1 & Hf1 & Hid1 & Hc1 & _).
+      assert (V1 : valid_parent M1 id1).
+      { subst id1. apply (movable_id_valid M); [cbn [length] in Hs; lia | exact Hn1]. }
+      assert (Hs1 : (N.of_nat (nbodies M1 + length (a2 :: rest')) < fixed_disc)%N).
+      { rewrite Hn1. cbn [length] in *. lia. }
+      rewrite (IH M1 id1 (stid O) b nm M' id W1 V1 Hs1 H). exact (add_movable_joint0 _ _ _ _ _ _ _ _ W E1).
+  Qed.
+  Theorem add_body_joint0 (M M' : Model) parent X sp b nm res :
+    WF M -> valid_parent M parent -> small M 6 ->
+    add_body O M parent X sp b nm = (M', res) -> getJ M' 0 = getJ M 0.
+  Proof.
+    intros W Vp [Hs1 Hs2] H.
+    destruct res as [id|]; [|apply (add_body_reject_frame O) in H; subst; reflexivity].
+    unfold add_body in H. destruct (name_taken M nm); [discriminate|].
+    destruct sp; try (exact (add_movable_joint0 _ _ _ _ _ _ _ _ W H)); try discriminate.
+    - unfold add_fixed in H. destruct (name_taken M nm); [discriminate|].
+      destruct (if is_fixed_id M parent then _ else _) as [mp pX].
+      destruct (body_join O _ _ _) as [pb|]; [|discriminate]. injection H as <- _. reflexivity.
+    - destruct (add_movable O M parent X (joint3 JTransXYZ (tx O) (ty O) (tz O)) (null_body O) 0%N) as [M1 r1] eqn:E1.
+      destruct r1 as [id1|]; [|cbn in H; discriminate]. cbn in H.
+      destruct (add_movable_WF O _ _ _ _ _ _ _ _ W Vp (nr_joint3 JTransXYZ _ _ _ ltac:(discriminate)) E1) as (W1 & _).
+      rewrite (add_movable_joint0 _ _ _ _ _ _ _ _ W1 H). exact (add_movable_joint0 _ _ _ _ _ _ _ _ W E1).
+    - destruct ((2 <=? length axes) && (length axes <=? 6))%bool eqn:Hl; [|discriminate].
+      apply andb_prop in Hl. destruct Hl as [Hl1 Hl2]. apply Nat.leb_le in Hl1, Hl2.
+      assert (Hsa : (N.of_nat (nbodies M + length axes) < fixed_disc)%N) by lia.
+      exact (add_emulated_joint0 axes M parent X b nm M' id W Vp Hsa H).
+    - match type of H with add_movable O ?MM _ _ _ _ _ = _ => set (M1 := MM) in * end.
+      assert (W1 : WF M1) by (apply (WF_custom_reg O); exact W).
+      rewrite (add_movable_joint0 _ _ _ _ _ _ _ _ W1 H). reflexivity.
+  Qed.
+  Theorem construction_joint0 : forall ops (M M' : Model), WF M -> run O M ops = Some M' -> getJ M' 0 = getJ M 0.
+  Proof.
+    induction ops as [|op t IH]; intros M M' W H; cbn in H; [injection H as <-; reflexivity|].
+    destruct (step O M op) as [M1|] eqn:E; [|discriminate].
+    unfold step in E.
+    destruct (valid_parentb M _ && _ && _)%bool eqn:C; [|discriminate].
+    apply andb_prop in C. destruct C as [C C3]. apply andb_prop in C. destruct C as [C1 C2].
+    apply N.ltb_lt in C2, C3. injection E as <-.
+    destruct (add_body O M _ (op_X op) (op_sp op) (op_b op) (op_nm op)) as [M2 r] eqn:E2.
+    destruct (add_body_WF O _ _ _ _ _ _ _ _ W (valid_parentb_spec _ _ C1) (conj C2 C3) E2) as (W2 & _).
+    rewrite (IH M2 M' W2 H). exact (add_body_joint0 _ _ _ _ _ _ _ _ W (valid_parentb_spec _ _ C1) (conj C2 C3) E2).
+  Qed.
+  Corollary constructed_models_root_joint ops M' : run O (model0 O) ops = Some M' -> RootJ M'.
+  Proof. intros H. unfold RootJ. rewrite (construction_joint0 ops _ _ (WF_model0 O) H). reflexivity. Qed.
+
   Lemma CustInj_model0 : CustInj (model0 O).
   Proof. intros i j Hi. cbn in Hi. lia. Qed.
   Theorem constructed_models_are_good ops M' : run O (model0 O) ops = Some M' ->
